@@ -151,6 +151,12 @@ func Validate(cfg map[string]string, disabled map[string]bool) []Violation {
 			if g, ok := cfg["/cons/mst/g"]; ok && g != "gd" {
 				add("must", p)
 			}
+		case p == "/cons/mst/k":
+			// /sys/log/level has the default info; it is in use whether or not anything below /sys or /sys/log is configured
+			// (RFC 7950 7.6.1: the ancestors are non-presence containers)
+			if lv, ok := cfg["/sys/log/level"]; ok && lv != "info" {
+				add("must", p)
+			}
 		case unitChkRe.MatchString(p):
 			// enabled has the default true
 			m := unitChkRe.FindStringSubmatch(p)
